@@ -5,7 +5,10 @@ go 1.22
 require github.com/karagenc/socket.io-go v0.0.0
 
 require (
+	github.com/deckarep/golang-set/v2 v2.6.0 // indirect
 	github.com/fatih/color v1.17.0 // indirect
+	github.com/fatih/structs v1.1.0 // indirect
+	github.com/karagenc/yeast v0.1.1 // indirect
 	github.com/mattn/go-colorable v0.1.13 // indirect
 	github.com/mattn/go-isatty v0.0.20 // indirect
 	github.com/quic-go/qpack v0.4.0 // indirect
